@@ -81,6 +81,20 @@ class C18(Check):
                 for (g1, w1), (g2, w2) in ((sp[0], sp[-1]), (sp[-1], sp[0])):
                     if w1 != w2:
                         yield ("override", k, g1, g2)
+        # several parameters on one command line: repeated --param flags, one flag with several items, both mixed
+        names = sorted(k for k in ps if k != "cn_solution")
+        first = {}
+        for k in names:
+            sp = spellings(ps[k])
+            first[k] = next((g for g, w in sp if w != "REJECT" and w != ps[k] and isinstance(g, str)), None)
+        cli_names = [k for k in names if first[k] is not None]
+        for i, a in enumerate(cli_names):
+            for b in cli_names[i + 1:]:
+                for form in ("repeat", "joined"):
+                    yield ("cli_multi", form, ((a, first[a]), (b, first[b])))
+            b, c = cli_names[(i + 1) % len(cli_names)], cli_names[(i + 2) % len(cli_names)]
+            for form in ("joined+repeat", "repeat+joined", "repeat3"):
+                yield ("cli_multi", form, ((a, first[a]), (b, first[b]), (c, first[c])))
         # write -> load histories
         names = sorted(k for k in ps if k != "cn_solution")
         for k in names:
@@ -113,7 +127,7 @@ class C18(Check):
             with open(path, "w") as f:
                 yaml.safe_dump(data, f)
             return Profile.load(gene, path, None, **(kv if route == "load_kw" else {}))
-        if route in ("cli_us", "cli_hy", "cli_cn", "cli_raw"):
+        if route in ("cli_us", "cli_hy", "cli_cn", "cli_raw", "cli_argv"):
             import aldy.__main__ as M
 
             rec = {}
@@ -127,6 +141,8 @@ class C18(Check):
                 argv += ["--cn", ",".join(kv["cn_solution"])]
             elif route == "cli_raw":
                 argv += ["--param"] + list(kv["raw"])
+            elif route == "cli_argv":
+                argv += list(kv["argv"])
             else:
                 items = [f"{k.replace('_', '-') if route == 'cli_hy' else k}={v}" for k, v in kv.items()]
                 for it in items:
@@ -211,6 +227,32 @@ class C18(Check):
             if getattr(p, k) != want:
                 v.append(("param/file-option-beats-user-value", f"{k}: options section says {in_file!r}, user gave {given!r}, result {getattr(p, k)!r}"))
             return Outcome(v, key=("override", k, repr(getattr(p, k))), nontrivial=True, note={"param": k, "file": repr(in_file), "given": repr(given)})
+        if kind == "cli_multi":
+            _, form, items = st
+            toks = [f"{k.replace('_', '-') if i % 2 else k}={g}" for i, (k, g) in enumerate(items)]
+            if form == "repeat" or form == "repeat3":
+                argv = [x for t in toks for x in ("--param", t)]
+            elif form == "joined":
+                argv = ["--param"] + toks
+            elif form == "joined+repeat":
+                argv = ["--param", toks[0], toks[1], "--param", toks[2]]
+            else:
+                argv = ["--param", toks[0], "--param", toks[1], toks[2]]
+            wants = {k: dict((repr(g), w) for g, w in spellings(ps[k]))[repr(g0)] for k, g0 in items}
+            try:
+                p = self._apply("cli_argv", {"argv": argv})
+                for k, w in wants.items():
+                    got = getattr(p, k)
+                    if got != w or type(got) is not type(ps[k]):
+                        v.append(("param/cli-several-parameters", f"{' '.join(argv)}: {k} -> {got!r}, expected {w!r}"))
+                others = {a: b for a, b in p.__dict__.items() if a not in CTOR_FIELDS and a not in wants}
+                if others != {a: b for a, b in ps.items() if a not in wants}:
+                    v.append(("param/other-parameter-changed", f"{' '.join(argv)} changed {[a for a in others if others[a] != ps[a]]}"))
+                outcome = ("ok", tuple(repr(getattr(p, k)) for k, _ in items))
+            except AldyException as ex:
+                v.append(("param/valid-rejected", f"{' '.join(argv)}: {ex}"))
+                outcome = ("rejected",)
+            return Outcome(v, key=("cli_multi", form, tuple(k for k, _ in items), outcome), nontrivial=True, note={"argv": " ".join(argv), "outcome": outcome})
         if kind == "cli_malformed":
             try:
                 self._apply("cli_raw", {"raw": [st[1]]})
